@@ -437,6 +437,15 @@ def main(argv):
             r4 = reference(binfo, scratch, name, text, outcl)
             if r4.rc == 0 and any(k.startswith("out/") for k in r4.files):
                 progs.append((name, text, r4, outcl))
+        # configuration with a SAVED object as input (compSavedFile: another path to the same emitters)
+        savedcl = ["fm", "c", "lsp", "java"]
+        w6 = scratch.new()
+        r6 = worlds.compile_world(binfo, w6, {"sv.as": worlds.HELLO}, ["-Fao"], ["sv.as"], cpu=60)
+        vsim.cleanup_world(w6)
+        if r6.rc == 0 and "sv.ao" in r6.files:
+            r7 = reference(binfo, scratch, "sv.ao", r6.files["sv.ao"], savedcl)
+            if r7.rc == 0 and set(savedcl) <= set(worlds.cls_of(k) for k in r7.files):
+                progs.append(("sv.ao", r6.files["sv.ao"], r7, savedcl))
         # configuration with the C++ stub generator (-Fc++: <name>_cc.h and <name>_as.as)
         cppcl = ["cpph", "cppas"]
         r5 = reference(binfo, scratch, "cx.as", CPP_SRC, cppcl)
